@@ -158,9 +158,11 @@ fn coerce_to_float(value: &Value, rust_type: &RustPrimitive) -> TokenStream {
         quote! { Default::default() }
       }
     }
+    // `"inf"`, `"NaN"` and `"infinity"` parse as f64 but have no literal: `inff64` would be an identifier
     Value::String(s) => s
       .parse::<f64>()
       .ok()
+      .filter(|f| f.is_finite())
       .map_or_else(|| quote! { Default::default() }, to_literal),
     _ => quote! { Default::default() },
   }
